@@ -32,6 +32,13 @@ var headerVariants = []hdr{
 	{"", 0},
 	{"APPLICATION/ACTIVITY+JSON", 2}, // media types are case-insensitive in HTTP; either answer is fine
 	{"text/html, application/activity+json", 2},
+	// many media ranges, the ActivityStreams one late (an Accept header of a browser-like client)
+	{`text/html, application/xhtml+xml, application/xml;q=0.9, image/webp, application/activity+json`, 2},
+	{`text/html, application/xhtml+xml, application/xml;q=0.9, image/webp, */*;q=0.8, application/json, application/ld+json; profile="https://www.w3.org/ns/activitystreams"`, 2},
+	// a profile parameter that belongs to ANOTHER media range does not make ld+json an ActivityStreams type
+	{`application/ld+json, text/html; profile="https://www.w3.org/ns/activitystreams"`, 0},
+	{`application/json; profile="https://www.w3.org/ns/activitystreams"`, 0},
+	{`text/html; q="application/activity+json"`, 0},
 }
 
 type bodyV struct {
